@@ -1,6 +1,7 @@
 import HLV.Model.Check
 import HLV.Model.CheckOwn
 import HLV.Model.Par
+import HLV.Model.Kill
 open HLV
 
 /-- `model`: case lines on stdin → model transcripts.
@@ -60,6 +61,7 @@ def main (args : List String) : IO Unit := do
   let stdin ← IO.getStdin
   match args with
   | ["drops"] => dropsLoop stdin
+  | ["kill"] => for l in HLV.Kill.scenarioLines true do IO.println l
   | ["t2"] => t2Loop stdin
   | ["t2check", prop] => t2CheckLoop prop stdin
   | ["check", prop] => checkLoop prop stdin
